@@ -25,7 +25,7 @@ def run(ctx):
     h_verify = build_harness(ctx, "h_verify", [os.path.join(VERIF, "harness/h_verify.c")], rt, incs=[gen_dir])
     kw = dict(nested_ws=0.25, embed=0.2, nest_aligns=(0, 0, 0, 1, 2, 4, 8, 16, 32, 64, 128, 256))
     cases = c02.build_cases(ctx, nested=0.7, nschema=60 if ctx.quick() else 900, per=5 if ctx.quick() else 10, gen_kw=kw, depths=(3, 5, 8))
-    cases = [c for c in cases if " B " in c["toks"] or " E " in c["toks"] or c["toks"].startswith("B")]
+    cases = [c for c in cases if " B " in c["toks"] or " E " in c["toks"] or c["toks"].startswith("B")] + [c02.short_nested_case()]
     c_out, m_out, err = c02.run_builds(ctx, h_build, cases)
     corr, spec = [], []
     depth_hist = {}
@@ -59,11 +59,20 @@ def run(ctx):
     out_v = ["reject" if o.startswith("reject") else o for o in out_v]
     idx, va, vb = diff_streams(vlines, out_v, out_w)
     nested_verified = 0
+    short_hits = []
     for i, (l, o) in enumerate(zip(vlines, va)):
         if not l.startswith("verify"): continue
         nested_verified += 1
         if not o.startswith("ok"):
-            spec.append((vown[i], "verify", "the verifier rejects a nested buffer cut out of its parent (or the parent): %s | %s" % (o[:80], l[:1500])))
+            e = (vown[i], "verify", "the verifier rejects a nested buffer cut out of its parent (or the parent): %s | %s" % (o[:80], l[:1500]))
+            if c02.short_nested_struct(cases[vown[i]]): short_hits.append(e)
+            else: spec.append(e)
+    if short_hits:
+        if any(f["property"] == "C15" and f["id"] == "nested-struct-root-below-header-size" and f["status"] == "known" for f in load_known()):
+            known_finding(ctx, "nested-struct-root-below-header-size", "a nested buffer whose root is a struct of fewer than 4 bytes (no identifier, no size prefix) is emitted as "
+                          "4 + size < 8 bytes; cut out of the parent it is rejected by the verifier, which demands an 8-byte header of every buffer, and so is the parent "
+                          "(%d verify lines this run), e.g. %s" % (len(short_hits), short_hits[0][2][-60:]))
+        else: spec += short_hits
     # generated nested-root API scenario
     gen_fail, gen_lines = nest_scenario(ctx, flatcc, rt)
     known = [f for f in load_known() if f["property"] == "C15" and f["status"] == "known"]
